@@ -300,7 +300,7 @@ def _account(chk: Check, cases: T.List[T.Dict[str, T.Any]], atoms: T.List[T.List
         src = [x for j in c['a'] for x in atoms[j - 1]] if 'a' in c else c['t']
         if c['e'] or c['m'] or c['o'] != src:
             chk.nontriv(f"{c.get('a', c.get('t'))}|{c['c'] if 'a' in c else json.dumps(confs[c['c'] - 1])}|{c['f']}")
-    for c in cases[:: max(1, len(cases) // 2)][:2]:
+    for c in [cases[len(cases) // 3], cases[(2 * len(cases)) // 3]] if len(cases) >= 3 else cases[:1]:
         chk.sample(describe(c, atoms, confs), limit=10)
 
 
